@@ -29,6 +29,25 @@ INT_TYPES = {"u8": 8, "u16": 16, "u32": 32, "u64": 64, "u128": 128, "usize": 64,
              "i8": 8, "i16": 16, "i32": 32, "i64": 64, "i128": 128, "isize": 64}
 
 
+def strip_turbofish(c):
+    """remove ONE trailing `::<...>` group (balanced), e.g. HashMap::<K, V>::get_mut::<str> -> HashMap::<K, V>::get_mut"""
+    c = c.strip()
+    if not c.endswith(">"):
+        return c
+    depth = 0
+    for i in range(len(c) - 1, -1, -1):
+        ch = c[i]
+        if ch == ">" and (i == 0 or c[i - 1] not in "-="):
+            depth += 1
+        elif ch == "<":
+            depth -= 1
+            if depth == 0:
+                if c[max(0, i - 2):i] == "::":
+                    return c[:i - 2]
+                return c
+    return c
+
+
 class Func:
     def __init__(self, name, header):
         self.name = name
@@ -241,7 +260,7 @@ class Explorer:
     # ---- function lookup ----
     def resolve(self, callee):
         """callee text as printed in a call terminator -> Func or None"""
-        c = re.sub(r"::<.*>$", "", callee.strip())
+        c = strip_turbofish(callee)
         if c in self.funcs:
             return self.funcs[c]
         m = re.fullmatch(r"<(?:Self|dyn [\w:]+) as ([\w:]+)>::(\w+)", c)
@@ -798,7 +817,7 @@ class Explorer:
                 rb = re.search(r"return: (bb\d+)", tail)
                 ret_block = rb.group(1) if rb else None
                 args = [self.operand(st, fr, a) for a in split_top(argtxt)]
-                cname = re.sub(r"::<.*>$", "", callee.strip())
+                cname = strip_turbofish(callee)
                 short = cname.split("::")[-1]
                 st.events.append(("call", cname, args, (f.name.split("::")[-1], block)))
                 if any(cname.endswith(sc) for sc in self.stop_calls):
